@@ -51,6 +51,8 @@ def c04_1(ck, prog):
     if not cands:
         raise AnalysisBroken('acquire_service: decision chain not found')
     start = cands[-1][1]
+    primary_ids = {lhs['id'] for b, i, ev in fn.events() for lhs, how, rhs in written_lvalues(ev)
+                   if is_ref(lhs) and rhs is not None and is_call(rhs, 'bus_service_get_primary_owner') and 'id' in lhs}
     names = ('no_owner', 'is_owner', 'DO_NOT_QUEUE', 'REPLACE_EXISTING', 'owner_allows_replacement',
              'owner_do_not_queue', 'requester_ALLOW_REPLACEMENT')
     for no_owner, is_owner, dnq, rep, ar, odq, my_allow in itertools.product((0, 1), repeat=7):
@@ -69,6 +71,8 @@ def c04_1(ck, prog):
                 return flags
             if is_call(e, 'bus_service_get_allow_replacement'):
                 return ar
+            if is_member(e, 'allow_replacement', 'BusOwner') and is_ref(e['base']) and e['base'].get('id') in primary_ids:
+                return ar          # the same flag read directly: the getter returns the primary owner's field
             if is_member(e, 'do_not_queue', 'BusOwner'):
                 return odq
             if is_call(e, '_bus_service_find_owner_link'):
